@@ -371,10 +371,8 @@ impl<'s> Builder<'s> {
 	/// the address under which an owned collection shows up in get_ptrs
 	fn reg_owned<L: Lockable>(&mut self, uid: Option<usize>, x: &L) {
 		if let Some(u) = uid {
-			let mut v = Vec::new();
-			x.get_ptrs(&mut v);
-			assert!(v.len() == 1);
-			self.uid_addr[u] = thin(v[0]);
+			// an owned collection reports itself (one indivisible RawLock): its own address
+			self.uid_addr[u] = x as *const L as *const u8 as usize;
 		}
 	}
 
